@@ -117,6 +117,8 @@ struct Session<'s> {
   bu_seen: bool,
   queue: u32,
   sched_ctx: SchedCtx,
+  /// the schedule-by-resource in progress was asked for by the explorer (a reported resource), not by an execution
+  top_level_sched: bool,
   last_check: Option<LastCheck>,
   obligation: Option<Obligation>,
   /// the context call in progress: (kind, task, target)
@@ -287,7 +289,7 @@ impl<'a> Analyzer<'a> {
     let mut s = Session {
       cells: st.pre_cells, fail: st.pre_fail, initial_cells: st.pre_cells,
       validated: 0, executed: 0, enter_count: vec![0; n], exec_stack: Vec::new(), frames: Vec::new(),
-      in_bu: false, bu_seen: false, queue: 0, sched_ctx: SchedCtx::None, last_check: None, obligation: None,
+      in_bu: false, bu_seen: false, queue: 0, sched_ctx: SchedCtx::None, top_level_sched: false, last_check: None, obligation: None,
       call: Vec::new(), findings: Vec::new(), m1_cache: vec![None; n], rc_errors: 0, win: Vec::new(), step: st,
     };
     let pre_dirty = self.dirty;
@@ -372,8 +374,11 @@ impl<'a> Analyzer<'a> {
         if !s.bu_seen { self.bu_snapshot = Some((self.sh.clone(), s.cells, s.fail)); }
         s.bu_seen = true;
         s.queue = 0;
+        // C04 counts executions per bottom-up build
+        for c in s.enter_count.iter_mut() { *c = 0; }
       }
-      Ev::BottomUpSchedule(_) | Ev::BottomUpUpdate => {}
+      Ev::BottomUpSchedule(_) => { s.top_level_sched = true; }
+      Ev::BottomUpUpdate => {}
       Ev::BottomUpDone => { s.in_bu = false; }
       Ev::Enter(t) => {
         let t = *t;
@@ -410,6 +415,16 @@ impl<'a> Analyzer<'a> {
       Ev::RetRead(c, stmt, r, serial, cell) => self.on_ret_read(s, *c, *stmt, *r, *serial, *cell),
       Ev::CallWrite(c, stmt, r, rc, decl) => self.on_call_write(s, *c, *stmt, *r, *rc, *decl),
       Ev::RetWrite(c, stmt, r) => self.on_ret_write(s, *c, *stmt, *r),
+      Ev::RetWriteErr(c, _stmt, r) => {
+        s.call.pop();
+        s.win.pop();
+        if let Some(ob) = s.obligation.take() {
+          let mut props = Vec::new();
+          if ob.hidden { props.push(Prop::C05); }
+          if ob.overlap { props.push(Prop::C06); }
+          self.add(s, &props, "conflicting-write-returned", "", format!("{}; the declaration of the write of r{} by T{} returned an error instead of aborting the build", ob.what, r, c));
+        }
+      }
       Ev::Tick(..) => { if let Some(w) = s.win.last_mut() { w.ticks_in_write += 1; } }
       Ev::ResRead(r, serial, cell) => {
         let _ = r;
@@ -739,7 +754,42 @@ impl<'a> Analyzer<'a> {
   fn on_tracker_bottom_up(&mut self, s: &mut Session, t: &TrkEv) {
     match t {
       TrkEv::SchedByResStart(r) => s.sched_ctx = SchedCtx::Res(*r),
-      TrkEv::SchedByResEnd(_) | TrkEv::SchedByTaskEnd(_) => s.sched_ctx = SchedCtx::None,
+      TrkEv::SchedByResEnd(r) => {
+        // Completeness: every task whose recorded dependency on this resource is rejected by its checker now must be
+        // scheduled (reported resource: read and write dependencies; resource written by an executed task: readers).
+        let top = s.top_level_sched;
+        s.top_level_sched = false;
+        s.sched_ctx = SchedCtx::None;
+        if !self.post_abort {
+          for x in 0..self.sh.len() as Tid {
+            if s.exec_stack.contains(&x) || s.queue & bit(x) != 0 || self.sh[x as usize].output.is_none() { continue; }
+            for d in self.sh[x as usize].edges() {
+              let relevant = match d { Dep::Read(rr, ..) => rr == *r, Dep::Write(rr, ..) => rr == *r && top, _ => false };
+              if relevant && self.dep_accepted(&d, &s.cells, &s.fail) != Some(true) {
+                self.add(s, &[Prop::C03, Prop::C08, Prop::C09, Prop::C18], "declared-dependency-did-not-schedule", "",
+                  format!("r{} was {} and T{}'s recorded dependency {:?} is rejected by its checker now, but T{} was not scheduled", r, if top { "reported" } else { "written by an executed task" }, x, d, x));
+              }
+            }
+          }
+        }
+      }
+      TrkEv::SchedByTaskEnd(u) => {
+        s.sched_ctx = SchedCtx::None;
+        if !self.post_abort {
+          let out = self.sh[*u as usize].output;
+          for x in 0..self.sh.len() as Tid {
+            if s.exec_stack.contains(&x) || s.queue & bit(x) != 0 || self.sh[x as usize].output.is_none() { continue; }
+            for d in self.sh[x as usize].edges() {
+              if let Dep::Req(uu, oc, stamp) = d {
+                if uu == *u && !out.map(|o| oc.consistent(o, stamp)).unwrap_or(false) {
+                  self.add(s, &[Prop::C03, Prop::C08, Prop::C09], "declared-dependency-did-not-schedule", "",
+                    format!("T{} was executed with output {:?}; T{}'s recorded require {:?} is rejected by its checker now, but T{} was not scheduled", u, out, x, d, x));
+                }
+              }
+            }
+          }
+        }
+      }
       TrkEv::SchedByTaskStart(u) => s.sched_ctx = SchedCtx::Task(*u),
       TrkEv::CheckReadResEnd(x, rc, stamp, res) => {
         let SchedCtx::Res(r) = s.sched_ctx else {
